@@ -1,7 +1,8 @@
 """C11 - metadata documents: faithful round trip, isolation and lifetime."""
 from props.common import *   # noqa
 
-MINE = {"model:meta", "returned-value", "result-class", "store-state:metadata-garbled", "store-state:tmp-residue",
+MINE = {"model:meta", "returned-value", "round-trip:stored-document-not-retrievable",
+        "round-trip:stored-document-follows-the-caller's-file", "result-class", "store-state:metadata-garbled", "store-state:tmp-residue",
         "store-state:foreign-file", "store-state:delete-marker-residue"}
 
 
